@@ -34,3 +34,22 @@ d = put(d, "<!-- FIXTABLE:BEGIN -->", "<!-- FIXTABLE:END -->", "| Property | Com
 d = put(d, "<!-- MUTTABLE:BEGIN -->", "<!-- MUTTABLE:END -->", "| Change | Caught by (quick tier) | Class |\n|---|---|---|\n" + mut)
 open(D, "w").write(d)
 print("fix commits: %d, seeded changes: %d" % (len(rows), len(mrows)))
+
+# ---- results table (section 9.8): quick numbers from evidence/*.json, thorough numbers from logs/*.thorough.err when present
+import os
+res = []
+for f in sorted(glob.glob("/verif/evidence/C??.json")):
+    e = json.load(open(f)); c = e["coverage"]; pid = e["property_id"]
+    th = ""
+    lf = "/verif/logs/%s.thorough.err" % pid
+    if os.path.exists(lf):
+        last = [l for l in open(lf) if "runs=" in l and "violations=" in l]
+        if last:
+            m = re.search(r"runs=(\d+) ops=(\d+) distinct\(\w+\)=(\d+) violations=(\d+) known=(\d+) wall=([\d.]+)s", last[-1])
+            if m:
+                th = "%s runs, %s ops, %s distinct, %s violations, %s known classes, %.0f s" % (m.group(1), m.group(2), m.group(3), m.group(4), m.group(5), float(m.group(6)))
+    res.append("| %s | %s | %d | %d | %d | %d | %d | %.0f s | %s |" % (pid, e["tier"], c["evaluations"], c["ops_executed"], c["distinct_nontrivial"], e["violations"], len(c.get("known_findings_matched", {})), e["wall_s"], th or "—"))
+d = open(D).read()
+d = put(d, "<!-- RESTABLE:BEGIN -->", "<!-- RESTABLE:END -->", "| Check | tier of evidence file | runs | ops (simulated steps) | distinct (see rule in evidence) | violations | known-finding classes matched | wall | last thorough run on this machine |\n|---|---|---|---|---|---|---|---|---|\n" + "\n".join(res))
+open(D, "w").write(d)
+print("results rows: %d" % len(res))
